@@ -63,6 +63,9 @@ pub struct Compiler {
     /// Enums declared so far in the open scopes of this function: (name, scope depth).
     /// A repeated `enum E` at the same depth merges into the existing object.
     declared_enums: Vec<(JsString, u16)>,
+
+    /// Scope depths of the namespace bodies being compiled (innermost last)
+    namespace_body_depths: Vec<u16>,
 }
 
 /// Context for a class being compiled (for private field handling)
@@ -121,6 +124,7 @@ impl Compiler {
             track_completion: false,
             source_file: None,
             declared_enums: Vec::new(),
+            namespace_body_depths: Vec::new(),
         }
     }
 
